@@ -258,3 +258,36 @@ Example ex_lst_file :
   LstOk (st "7.5.0") [(1%N, facts_of_wblock ex_b1); (2%N, facts_of_wblock ex_b2)] /\
   read_lst (render_lst (st "7.1.0") [ex_b1]) [1%N] = LstNoVersion.
 Proof. repeat split; vm_compute; reflexivity. Qed.
+
+(* phi_subproblem_*: two phi tables; subproblem 1 and 2 pick the written tables by position, 0 is Python's [-1],
+   3 is an IndexError, no subproblem is the last table *)
+From PV Require Import C20.Check C20.Sub.
+Local Open Scope N_scope.
+Definition ex_phi_w2 : wtable :=
+  mkWTable (Some (ex_title [2]%nat None None)) (w_labels ex_phi_w)
+    (map (fun r => match r with a :: _ :: tl => a :: int false [4;2]%nat :: tl | _ => r end) (w_rows ex_phi_w)) true 0 true.
+Definition ex_ids (r : rres (option phi_results)) : option (list cell) :=
+  match r with ROk (Some p) => Some (pr_ids p) | _ => None end.
+Definition ex_sub (k : option Z) : rres (option phi_results) :=
+  parse_phi_sub (Some (render_wfile [ex_phi_w; ex_phi_w2]))
+    [([69;84;65;40;49;41], [69;84;65;95;49]); ([69;84;65;40;50;41], [69;84;65;95;50])] [[69;84;65;95;50]; [69;84;65;95;49]] k.
+Example ex_phi_subproblem :
+  wfile_ok SPhi false [ex_phi_w; ex_phi_w2] = true /\
+  not_design (table_of_wtable SPhi false ex_phi_w2) = true /\
+  ex_ids (ex_sub (Some 1%Z)) = Some [CNum 11] /\ ex_ids (ex_sub (Some 2%Z)) = Some [CNum 42] /\
+  ex_ids (ex_sub (Some 0%Z)) = Some [CNum 42] /\ ex_ids (ex_sub None) = Some [CNum 42] /\
+  ex_sub (Some 3%Z) = RErr 4%N /\ ex_sub (Some (-2)%Z) = RErr 4%N /\ ex_ids (ex_sub (Some (-1)%Z)) = Some [CNum 11].
+Proof. repeat split; vm_compute; reflexivity. Qed.
+(* the correspondence verdict is sensitive: an observation taken from the wrong table (off by one), a result where
+   the implementation should raise, or an exception where it should not, are all flagged with tag 6 *)
+Definition ex_subcase (k : Z) (o : sub_obs) : subcase :=
+  mkSub (render_wfile [ex_phi_w; ex_phi_w2])
+    [([69;84;65;40;49;41], [69;84;65;95;49]); ([69;84;65;40;50;41], [69;84;65;95;50])] [[69;84;65;95;50]; [69;84;65;95;49]] (Some k) o.
+Definition ex_obs (k : Z) : sub_obs := match ex_sub (Some k) with ROk p => SubRes p | _ => SubExc end.
+Example ex_subverdict_sensitive :
+  subverdict (ex_subcase 1 (ex_obs 1)) = [] /\ subverdict (ex_subcase 2 (ex_obs 2)) = [] /\
+  subverdict (ex_subcase 3 (ex_obs 3)) = [] /\
+  subverdict (ex_subcase 2 (ex_obs 1)) = [6%nat] /\ subverdict (ex_subcase 1 (ex_obs 2)) = [6%nat] /\
+  subverdict (ex_subcase 3 (ex_obs 2)) = [6%nat] /\ subverdict (ex_subcase 2 SubExc) = [6%nat] /\
+  subverdict (ex_subcase 2 (SubRes None)) = [6%nat].
+Proof. repeat split; vm_compute; reflexivity. Qed.
